@@ -1842,6 +1842,11 @@ fn inject_define_component_option(call: &mut CallExpr, name: &'static str, value
         return;
     }
 
+    // `defineComponent()`: options are the second argument, there is no first one
+    if call.args.is_empty() {
+        return;
+    }
+
     match call.args.get_mut(1).map(|options| &mut *options.expr) {
         Some(Expr::Object(object)) => {
             if !object
